@@ -10,11 +10,13 @@ def instances(tier):
     if tier == 'quick':
         yield 'core5', dict(BASE, max_len=5, win_end=12), 'AlphaC08core', None
         yield 'nest6', dict(BASE, max_len=6, win_end=12), 'AlphaC08nest', None
+        yield 'inc6', dict(BASE, max_len=6, win_end=12, emit_inv='EmitInc'), 'AlphaC08inc', None
         yield 'wide3', dict(BASE, max_len=3, win_end=12), 'AlphaC08wide', None
         yield 'wide-sim8', dict(BASE, max_len=8, win_end=12), 'AlphaC08wide', 'num=4000'
     else:
         yield 'core6', dict(BASE, max_len=6, win_end=12), 'AlphaC08core', None
         yield 'nest8', dict(BASE, max_len=8, win_end=12), 'AlphaC08nest', None
+        yield 'inc7', dict(BASE, max_len=7, win_end=12, emit_inv='EmitInc'), 'AlphaC08inc', None
         yield 'wide4', dict(BASE, max_len=4, win_end=12), 'AlphaC08wide', None
         yield 'wide-sim10', dict(BASE, max_len=10, win_end=12), 'AlphaC08wide', 'num=40000'
 
